@@ -570,7 +570,7 @@ class RemoteWorker(Worker, metaclass=RemoteWorkerMeta):
         self._aux_socket_my, self._aux_socket_ctrl = None, None
 
         try:
-            result = None
+            result = (False, None) # reported if the worker is ended by something which is not handled below (e.g. a BaseException)
 
             if is_windows():
                 # Extra pair of sockets to release the backend of the persistent worker
